@@ -207,7 +207,8 @@ NamedConfigs == <<
   (* 7 *) << Set("imsc_writer", "time_format", "\"frames\"", VStr("frames", {}), "valid") >>,          \* fps missing
   (* 8 *) << Set("vtt_writer", "line_position", "true", VBool(TRUE), "valid"), Set("vtt_writer", "text_align", "true", VBool(TRUE), "valid"),
              Set("vtt_writer", "cue_id", "false", VBool(FALSE), "valid"), Set("scc_reader", "text_align", "\"center\"", VStr("center", {}), "valid"),
-             Set("srt_writer", "text_formatting", "false", VBool(FALSE), "valid") >>
+             Set("srt_writer", "text_formatting", "false", VBool(FALSE), "valid") >>,
+  (* 9 *) << >>                               \* an EMPTY configuration (file "{}"): it still takes precedence over an inline one
 >>
 NCat == Len(CatSeq)
 Configs == TLCEval([i \in 1..(NCat + Len(NamedConfigs)) |->
@@ -297,7 +298,8 @@ ConfigJobs == { ConfigJob(i) : i \in 1..NCat }
 
 \* precedence of the file, language override, filter lists, sub-commands
 OtherJobs ==
-  { Job("convert", "ttml", "-", ".ttml", "-", "." \o w, f, i, <<>>) : w \in Writers, f \in {0, Named(2)}, i \in {0, Named(3)} }
+  { Job("convert", "ttml", "-", ".ttml", "-", "." \o w, f, i, <<>>) : w \in Writers, f \in {0, Named(2), Named(9)}, i \in {0, Named(3)} }
+  \cup { Job("convert", "scc", "-", ".scc", "-", ".ttml", Named(9), Named(6), <<>>) }
   \cup { Job("convert", c, "-", "." \o c, "-", ".ttml", 0, Named(5), fl) :
            c \in {"ttml", "scc"},
            fl \in { <<>>, <<"lcd">>, <<"lcd", "lcd">>, <<"stampa", "stampb">>, <<"stampb", "stampa">>, <<"stampa", "lcd">>, <<"lcd", "stampa">> } }
